@@ -171,7 +171,8 @@ def observe(text, charset):
     o = pipe.run(text, sinks=('ack',), charset=charset, want_nodes=False)
     exc = '%s@%s' % (o.exc, o.exc_where) if o.exc else None
     errs = frozenset(o.errors) if o.errors is not None else None
-    return {'verdict': o.verdict, 'exc': exc, 'tree_exc': o.tree_exc, 'errors': errs, 'ack': ack_body(o.ack)}
+    return {'verdict': o.verdict, 'exc': exc, 'tree_exc': o.tree_exc, 'errors': errs, 'ack': ack_body(o.ack),
+            'ack_delims': (ref.delims(o.ack) if o.ack and ref.header_ok(o.ack) else None)}
 
 
 def norm_values(errs, sub):
@@ -207,6 +208,10 @@ def compare(b, o, enc, charset):
             be = b['errors'] or frozenset(); oe = o['errors'] or frozenset()
             lost = sorted(be - oe, key=repr); new = sorted(oe - be, key=repr)
             return [('C12|errors|%s' % tag, '[%s] errors differ from the base encoding: only base %r; only here %r' % (here, lost[:3], new[:3]))], None
+    if o.get('ack_delims') != b.get('ack_delims'):
+        # the body is compared token by token, so the characters it is written with are compared separately: the
+        # acknowledgement has delimiters of its own, which must not follow those of the document acknowledged
+        return [('C12|ack delimiters|%s' % tag, '[%s] the acknowledgement is written with delimiters %r, for the base encoding with %r' % (here, o.get('ack_delims'), b.get('ack_delims')))], loose
     if oa != ba:
         d = [(x, y) for x, y in itertools.zip_longest(ba, oa) if x != y][:2]
         return [('C12|ack body|%s' % tag, '[%s] acknowledgement body differs (%d vs %d lines): first differences base/here %r' % (here, len(ba), len(oa), d))], loose
